@@ -33,6 +33,13 @@ def _split_top(s, sep=","):
     if cur.strip(): out.append(cur.strip())
     return tuple(out)
 
+DUPS = {}
+def _norm_sig(t): return re.sub(r"'\w+", "'", t).replace(" ", "")
+def pick_dup(callee, fi):
+    """the same-named function whose return type matches the fn-pointer type spelled in the callee's generic arguments"""
+    for f in DUPS.get(fi.fn.name, ()):
+        if _norm_sig("-> %s {%s}" % (f.ret, f.name)) in _norm_sig(callee): return FnItem(f)
+    return fi
 def load(path, fns, consts):
     cur = None; blocks = None; bb = None
     for line in open(path):
@@ -53,7 +60,11 @@ def load(path, fns, consts):
                     m = re.match(r"(_\d+): (.*)$", p)
                     if m: params.append((m.group(1), m.group(2)))
                 ret = line[j+1:].strip().lstrip("->").rstrip("{").strip()
-                blocks = {}; cur = Fn(name, params, blocks, ret); fns.setdefault(name, cur)
+                blocks = {}; cur = Fn(name, params, blocks, ret)
+                if name in fns and fns[name].ret != ret and not name.split("::")[-1][0].isupper():
+                    # nested fns of the same name in one module (statement::item): told apart by their return type at the use site
+                    DUPS.setdefault(name, [fns[name]]).append(cur)
+                fns.setdefault(name, cur)
             else:
                 m = re.match(r"^const (.+?::promoted\[\d+\]): ", line)
                 if m:
@@ -565,6 +576,8 @@ class Exec:
         if len(cands) == 1 and len(parts) <= 2 and parts[0] not in ("Vec", "Option", "Result", "Box", "HashMap", "BTreeMap", "BTreeSet", "String"): return cands[0]
         return None
     def call(self, callee, args):
+        if DUPS and any(isinstance(x, FnItem) and x.fn.name in DUPS for x in args):
+            args = [pick_dup(callee, x) if isinstance(x, FnItem) and x.fn.name in DUPS else x for x in args]
         if re.match(r"^<.* as Clone>::clone$", strip_gen(callee)):
             v = args[0]
             while isinstance(v, Ref): v = v.get()
